@@ -66,7 +66,7 @@ func runC04(c *Ctx) int {
 		return c.replayAPI(mon, 1_000_000)
 	}
 	n := c.Pick(640, 40000)
-	progs := apiPrograms(c.Seed, n, []string{"mixed", "structural", "buckets", "big", "mixed", "manybuckets", "buckets"}, func(i int, cfg *gen.Config) {
+	progs := apiPrograms(c.Seed, n, []string{"mixed", "structural", "buckets", "big", "mixed", "manybuckets", "buckets", "bigkeys"}, func(i int, cfg *gen.Config) {
 		cfg.FailCommit = 0.1 // a failed commit must leave the state the model has (all-or-nothing through the API)
 	})
 	monT := mon
